@@ -730,3 +730,16 @@ def r6_sparse(text, *vec_idents):
                       if m.group(5) == m.group(7) and m.group(6) == m.group(8) else m.group(0), text)
     n += k
     return text, n
+
+
+@rule('R11_str')
+def r11_str_len(text, *idents):
+    """S.len() -> vt_str_len(S),  S.is_empty() -> vt_str_is_empty(S)   for the listed `&str` identifiers (whole words only).
+    vstd's own contract of str::len only covers ASCII strings."""
+    n = 0
+    for s_ in idents:
+        text, k = re.subn(r'(?<![A-Za-z0-9_.])' + re.escape(s_) + r'\.len\(\)', 'vt_str_len(%s)' % s_, text)
+        n += k
+        text, k = re.subn(r'(?<![A-Za-z0-9_.])' + re.escape(s_) + r'\.is_empty\(\)', 'vt_str_is_empty(%s)' % s_, text)
+        n += k
+    return text, n
